@@ -138,7 +138,18 @@ META["C13"] = {
     "technique": "explicit-state BFS over operation sequences on the implementation with reference comparison and terminal probes",
 }
 
-ENGINE_OF = {"C13": "seq", "C05": "seq", "C11": "seq", "C10": "seq+sched", "C12": "sched", "C03": "seq", "C06": "seq+sched", "C09": "sched", "C08": "seq", "C02": "seq+sched", "C04": "seq+sched", "C01": "seq+sched"}
+META["C14"] = {
+    "level": "exploration",
+    "rule": "metamorphic enumeration: for each subject rule kind with runtime state (flow reject with a standalone window, flow throttling, flow warm-up, circuit breaker open / half-open, hotspot QPS tokens, hotspot concurrency counters) x every initial list x EVERY traffic history over the subject's alphabet up to the depth bound x EVERY position of a reload x every edit of the rest of the list (pure reload, other rule added before / after, other rule modified, third rule added, duplicate of the unchanged rule, a modified copy of it placed before / after it) x both load paths: the decision trace (decisions and requested waits) with the reload must equal the trace of the same history without it; plus count references for 'a modified rule with unchanged statistic parameters keeps its statistics'; distinct = subject + baseline trace",
+    "assumptions": [A_CLOCK, A_OVERLAY, "the other rules of the list are permissive (thresholds around 1e9) so that they cannot change a decision themselves; duplicates / modified copies are only used for subjects where a fresh copy cannot be stricter than the aged rule"],
+    "budget_quick": 90,
+    "budget_thorough": 1200,
+    "text": "Exhaustive metamorphic comparison of the implementation with itself over all bounded histories and reload positions.",
+    "level_note": "History depth 5 (quick) / 6-7 (thorough); the subject alphabets are small (3-6 operations).",
+    "technique": "bounded exhaustive enumeration of histories x reload positions x list edits on the implementation, differential (with / without reload) oracle",
+}
+
+ENGINE_OF = {"C14": "seq", "C13": "seq", "C05": "seq", "C11": "seq", "C10": "seq+sched", "C12": "sched", "C03": "seq", "C06": "seq+sched", "C09": "sched", "C08": "seq", "C02": "seq+sched", "C04": "seq+sched", "C01": "seq+sched"}
 
 # properties not claimed, with the reason (kept current)
 NOT_APPLICABLE = {}
